@@ -441,7 +441,7 @@ func evaluatorModDownScenario(ch chain) engine.Scenario {
 						e, ok := fitE(got, ch.Q[:lq+1], rq, bint(1))
 						if (!ok || e != 0) && lp < 0 && inNTT == outNTT {
 							// known input class (FINDINGS.md #3): no P, same domain, ctQP.Q not aliasing ct: the copy goes the wrong way
-							fail(c, "C02/basisext/Evaluator.ModDown/noP-same-domain/copies-ct-into-ctQP-instead-of-ctQP-into-ct", "%s lq=%d ctQP.IsNTT=ct.IsNTT=%v component %d: x=%s lane %d: ct holds %v, want x", ch.name, lq, inNTT, u, xs[u][j], j, got)
+							c.Fail("C02/basisext/Evaluator.ModDown/noP-same-domain/copies-ct-into-ctQP-instead-of-ctQP-into-ct", "%s lq=%d ctQP.IsNTT=ct.IsNTT=%v component %d: x=%s lane %d: ct holds %v, want x", ch.name, lq, inNTT, u, xs[u][j], j, got)
 							return
 						}
 						if !ok || (lp < 0 && e != 0) {
